@@ -121,6 +121,10 @@ func (svr *ComputeServer) BasicCompute(
 		return nil, status.Errorf(codes.InvalidArgument,
 			"epsilon=%f out of range (0..1]", *epsilon)
 	}
+	if request.Params.MaxIterations != 0 {
+		opts = append(opts,
+			basic.WithMaxIterations(int(request.Params.MaxIterations)))
+	}
 	basic.CanonicalizeTrustVector(p)
 	basic.CanonicalizeTrustVector(t)
 	discounts, err := basic.ExtractDistrust(c)
